@@ -58,6 +58,12 @@ def _c3(s, pos, u2lobj):
     return None
 
 
+def compat_active_chars():
+    act = set('\\{}$%&#_^~')
+    return [chr(cp) for cp in range(0x80, 0x30000)
+            if not (0xd800 <= cp <= 0xdfff) and (set(unicodedata.normalize('NFKC', chr(cp))) & act)]
+
+
 def rule_menu():
     """list of (name, library rule factory(own_protection), reference matcher)"""
     from pylatexenc import latexencode as le
@@ -192,7 +198,7 @@ def plan(tier):
     lb = rule_lists_B(3)
     shards = [('A', i) for i in range(len(la))]
     shards += [('B', i) for i in range(64)]
-    shards += [('chars', i) for i in range(8)] + [('homo', 0), ('partial', 0), ('partial', 1), ('helper', 0), ('chunks', 0), ('nfc', 0), ('nfc', 1), ('alias', 0)]
+    shards += [('chars', i) for i in range(8)] + [('homo', 0), ('partial', 0), ('partial', 1), ('helper', 0), ('chunks', 0), ('nfc', 0), ('nfc', 1), ('alias', 0), ('compat', 0)]
     return dict(
         shards=shards,
         bounds=dict(b, symbols=[repr(x) for x in SYMS], rule_kinds=[m[0] for m in rule_menu()], configs=len(CONFIGS),
@@ -203,7 +209,7 @@ def plan(tier):
               '<= NA over 12 symbols (ASCII, %%, backslash, precomposed and combining accents, symbols with rules, control, unassigned, astral); '
               '(B) every ordered list of <= 3 rule variants x default configuration x strings of length <= NB; every code point of both built-in '
               'tables alone and between neighbours; homomorphism on all splits; partial encoder on strings of length <= NP over 14 LaTeX lexemes; '
-              'helper call sequences of length <= NH over 8 option tuples; all strings of length <= 3 over 12 symbols (canonical composition without combining mark: Hangul jamo, Indic vowel parts, singleton; astral characters without a rule) x 72 configurations; caller-mutation histories of length <= 3 on the built-in rule lists handed out by the module.  non-trivial = encodes whose output differs from the NFC input.'),
+              'helper call sequences of length <= NH over 8 option tuples; all strings of length <= 3 over 12 symbols (canonical composition without combining mark: Hangul jamo, Indic vowel parts, singleton; astral characters without a rule) x 72 configurations; caller-mutation histories of length <= 3 on the built-in rule lists handed out by the module; every code point whose compatibility (NFKC) form contains a LaTeX-active ASCII character, in 5 frames x 72 configurations x both tables.  non-trivial = encodes whose output differs from the NFC input.'),
         assumptions=['the reference encoder mc/ref/encoder.py transcribes the documented semantics; the built-in tables are data shared with it',
                      'rules that can match the empty string are excluded (contract: number of characters consumed)'],
     )
@@ -266,6 +272,18 @@ def run_shard(shard, tier, acc):
                                            unknown_char_warning=False)
             for s in strings(3, NFC_SYMS):
                 compare(enc, refrules, cfg, s, acc, dict(table='defaults', cfg=cfgname(cfg), s=s), 'chars')
+    elif sub == 'compat':
+        # every code point without an ASCII spelling of its own whose COMPATIBILITY form contains a LaTeX-active ASCII character
+        # (full-width, small and vertical forms): the encoder normalises canonically (NFC) only
+        from pylatexenc import latexencode as le
+        for tname, table in (('defaults', le.get_builtin_uni2latex_dict()), ('unicode-xml', __import__('pylatexenc.latexencode._uni2latexmap_xml', fromlist=['x']).uni2latex)):
+            refrules = [(ref.dict_matcher(table), None)]
+            for cfg in CONFIGS:
+                enc = le.UnicodeToLatexEncoder(conversion_rules=[tname], replacement_latex_protection=cfg[0], unknown_char_policy=cfg[1],
+                                               non_ascii_only=cfg[2], unknown_char_warning=False)
+                for c in compat_active_chars():
+                    for s_ in (c, 'a' + c + 'b', c + c, c + '\n', '{' + c + '}'):
+                        compare(enc, refrules, cfg, s_, acc, dict(table=tname, cfg=cfgname(cfg), s=s_), 'chars')
     elif sub == 'alias':
         check_alias(acc)
     elif sub == 'partial':
